@@ -211,8 +211,10 @@ func (ex *Exec) checkM(extra *Term) (Result, map[string]*big.Int) {
 }
 
 func (ex *Exec) check(extra *Term, want []*Term) (Result, map[string]*big.Int) {
-	as := append(append([]*Term{}, ex.pc...), extra)
-	return ex.S.Check(as, want)
+	if extra != nil && extra.IsTrue() {
+		extra = nil
+	}
+	return ex.S.Check(ex.pc, extra, want)
 }
 
 // Dec is one recorded branch decision; V carries the candidate value of a
